@@ -926,6 +926,30 @@ def addComponentMT (fl : Flavour) (c : Nat) (parent : Nid) (a : CompArgs) (mt : 
   M.guard (!(comps.map (·.name)).contains a.name) .topology
   compNewMT fl c parent a mt
 
+def existsAs (x : Nid) (c : Cls) : M Topo Bool := read (fun s => s.nodes.any (fun m => m.nid == x && m.cls == c))
+
+/-- `ExperimentTopology.prune` once the marked elements are collected (the four sets in the order the call iterates them:
+node names, components as (id, name, id of the node), services, interfaces): nodes first, then what is still present of the
+components, the services (looked up afresh), the interfaces -/
+def prune (nodes : List String) (comps : List (Nid × String × Nid)) (nss : List Nid) (ifs : List Nid) : M Topo Unit := do
+  forEach nodes removeNode
+  forEach comps (fun x => do
+    let there ← existsAs x.1 .component
+    if there then removeComponent x.2.2 x.2.1 else pure ())
+  forEach nss (fun ns => do
+    let there ← existsAs ns .networkService
+    if there then do
+      let cps ← childrenOf ns [.link, .networkService] .connects .connectionPoint
+      detachAll (cps.map (·.nid))
+      removeNs ns
+    else pure ())
+  forEach ifs (fun i => do
+    let there ← existsAs i .connectionPoint
+    if there then do
+      detachAll [i]
+      removeCpAndLinks i true
+    else pure ())
+
 inductive XOp where
   | addChildInterface (fl : Flavour) (c : Nat) (port : Nid) (cache : Cache) (name : String) (nid : Option Nid)
       (vlan : Option String) (vlanTbl : List (String × String)) (props : List PropArg)
@@ -934,6 +958,7 @@ inductive XOp where
   | unpeer (cache : Cache) (other : Option SvcHandle)
   | addPortMirror (fl : Flavour) (c : Nat) (a : SvcArgs) (toOk fromOk : Bool)
   | addComponentMT (fl : Flavour) (c : Nat) (parent : Nid) (a : CompArgs) (mt : String × String)
+  | prune (nodes : List String) (comps : List (Nid × String × Nid)) (nss : List Nid) (ifs : List Nid)
 
 /-- as `Out`, with the cache of the second handle a call may extend (`peer` / `unpeer`) -/
 structure OutX where
@@ -949,5 +974,6 @@ def stepX : XOp → M Topo OutX
   | .unpeer ca o => unpeer ca o >>= fun r => pure ⟨none, some r.1, some r.2⟩
   | .addPortMirror fl c a t f => addPortMirror fl c a t f >>= fun r => pure ⟨some r.1, some r.2, none⟩
   | .addComponentMT fl c p a mt => addComponentMT fl c p a mt >>= fun r => pure ⟨some r, none, none⟩
+  | .prune ns cs ss is => prune ns cs ss is >>= fun _ => pure ⟨none, none, none⟩
 
 end FimVerif.Topo
